@@ -20,6 +20,12 @@ Supported statements (anything else makes the function `untranslatable`, which i
     let NAME = callee(args);  let NAME = E;
     if C1 || C2 { stmts ; return build_box(b"....", &payload); }
     build_box(b"....", &payload)    |    payload     (tail expression)
+Second batch: parameters `&[u32]` / `&[i32]` (lists) and `&Struct` (flattened to the integer, `bool`, `Vec<u8>` and
+`Option<Vec<u8>>` fields the body or a callee reads); methods (`&self`); `for x in xs { …extend(&x.to_be_bytes()) }`;
+the run-length loop of stts/ctts (recognised as a whole, rendered as `rleSnoc`); `let (a, b, c) = if C { (..) } else { (..) }`;
+`vec![e1, e2, ..]`; `if C { A } else { B }` as an expression; `v[i]`, `v.get(i).copied().unwrap_or(d)`,
+`v.get(i).map(|b| E).unwrap_or(d)`; `if let Some(v) = &s.f { stmts }`; `x.is_some()`; `s.method()` of a translated method.
+Dropped on purpose: `assert_invariant!(..)` statements (they panic or return unit; the translation describes the value returned).
 Integer semantics: every value is a Lean `Nat`; `x as uN` is `x % 2^N`; `a << k` on a W-bit operand is
 `(a * 2^k) % 2^W`; `.to_be_bytes()` of a W-bit value is the model's `uWbe` (which writes `% 2^W`).
 """
@@ -27,8 +33,8 @@ import os
 import re
 import sys
 
-REPO = "/repo"
-OUT = os.path.join(os.path.dirname(os.path.dirname(os.path.abspath(__file__))), "lean", "Muxide", "Generated", "Builders.lean")
+REPO = os.environ.get("RS2LEAN_REPO", "/repo")
+OUT = os.environ.get("RS2LEAN_OUT") or os.path.join(os.path.dirname(os.path.dirname(os.path.abspath(__file__))), "lean", "Muxide", "Generated", "Builders.lean")
 
 # (file, function) in translation order (callees first)
 TARGETS = [
@@ -36,13 +42,23 @@ TARGETS = [
     ("src/fragmented.rs", "build_hdlr_video"), ("src/fragmented.rs", "build_vmhd"), ("src/fragmented.rs", "build_dinf"),
     ("src/fragmented.rs", "build_empty_stts"), ("src/fragmented.rs", "build_empty_stsc"), ("src/fragmented.rs", "build_empty_stsz"),
     ("src/fragmented.rs", "build_empty_stco"), ("src/fragmented.rs", "build_mfhd"), ("src/fragmented.rs", "build_tfhd"),
-    ("src/fragmented.rs", "build_tfdt"),
+    ("src/fragmented.rs", "build_tfdt"), ("src/fragmented.rs", "build_tkhd_fmp4"),
+    ("src/fragmented.rs", "build_avcc_fmp4"), ("src/fragmented.rs", "build_avc1_fmp4"),
+    ("src/fragmented.rs", "build_hvcc_fmp4"), ("src/fragmented.rs", "build_hvc1_fmp4"),
     ("src/muxer/mp4.rs", "build_url_box"), ("src/muxer/mp4.rs", "build_dref_box"), ("src/muxer/mp4.rs", "build_dinf_box"),
     ("src/muxer/mp4.rs", "build_vmhd_box"), ("src/muxer/mp4.rs", "build_smhd_box"),
     ("src/muxer/mp4.rs", "build_hdlr_box"), ("src/muxer/mp4.rs", "build_sound_hdlr_box"), ("src/muxer/mp4.rs", "build_meta_hdlr_box"),
     ("src/muxer/mp4.rs", "build_ftyp_box"), ("src/muxer/mp4.rs", "build_mvhd_payload"),
     ("src/muxer/mp4.rs", "build_tkhd_box_with_id"), ("src/muxer/mp4.rs", "build_stsc_box"),
     ("src/muxer/mp4.rs", "build_audio_specific_config"), ("src/muxer/mp4.rs", "build_esds_box"), ("src/muxer/mp4.rs", "build_mp4a_box"),
+    ("src/muxer/mp4.rs", "build_stsz_box"), ("src/muxer/mp4.rs", "build_stco_box"), ("src/muxer/mp4.rs", "build_stss_box"),
+    ("src/muxer/mp4.rs", "build_stts_box"), ("src/muxer/mp4.rs", "build_ctts_box"),
+    ("src/muxer/mp4.rs", "build_avcc_box"), ("src/muxer/mp4.rs", "build_av1c_box"), ("src/muxer/mp4.rs", "build_vpcc_box"),
+    ("src/muxer/mp4.rs", "build_avc1_box"), ("src/muxer/mp4.rs", "build_av01_box"), ("src/muxer/mp4.rs", "build_vp09_box"),
+    # the four SPS readers of `impl HevcConfig` (methods: `&self` is the struct), then the boxes that call them
+    ("src/codec/h265.rs", "general_profile_space", "HevcConfig"), ("src/codec/h265.rs", "general_tier_flag", "HevcConfig"),
+    ("src/codec/h265.rs", "general_profile_idc", "HevcConfig"), ("src/codec/h265.rs", "general_level_idc", "HevcConfig"),
+    ("src/muxer/mp4.rs", "build_hvcc_box"), ("src/muxer/mp4.rs", "build_hvc1_box"),
 ]
 
 WIDTH = {"u8": 8, "u16": 16, "u32": 32, "u64": 64}
@@ -87,7 +103,7 @@ def structs_of(src):
     out = {}
     for m in re.finditer(r"struct\s+(\w+)\s*\{(.*?)\}", src, re.S):
         fields = []
-        for fm in re.finditer(r"(?:pub\s+)?(\w+)\s*:\s*(u8|u16|u32|u64)\s*,", m.group(2)):
+        for fm in re.finditer(r"(?:pub\s+)?(\w+)\s*:\s*(u8|u16|u32|u64|bool|Vec<u8>|Option<Vec<u8>>)\s*,", m.group(2)):
             fields.append((fm.group(1), fm.group(2)))
         if fields:
             out[m.group(1)] = fields
@@ -107,7 +123,7 @@ def split_statements(body):
             depth += 1
         elif ch == "}":
             depth -= 1
-            if depth == 0 and par == 0:
+            if depth == 0 and par == 0 and not re.match(r"\s*(let|return)\b", cur):
                 out.append(cur.strip()); cur = ""
         elif ch == ";" and depth == 0 and par == 0:
             out.append(cur.strip()); cur = ""
@@ -121,25 +137,46 @@ def lean_bytes(bs):
 
 
 class Fn:
-    def __init__(self, name, sig, body, consts, known, structs=None):
+    def __init__(self, name, sig, body, consts, known, structs=None, self_struct=None):
         self.name, self.consts, self.known = name, consts, known
+        mret = re.search(r"->\s*([\w<>\[\]; ]+?)\s*$", sig.strip())
+        rt = mret.group(1) if mret else ""
+        self.result = ("int", WIDTH[rt]) if rt in WIDTH else ("bool",) if rt == "bool" else ("bytes",)
         structs = structs or {}
         self.all_structs = structs
         self.structs_of = {}
+        self.used = {}          # struct parameter -> set of field names the body reads
+        self.rust_params = []   # per Rust parameter: None (plain) or the struct parameter's name
         self.env = {}          # name -> ("int", width) | ("bytes",) | ("array", width)
         self.params = []
         m = re.search(r"\((.*)\)", sig, re.S)
         for p in [x.strip() for x in m.group(1).split(",") if x.strip()]:
+            if p == "&self" and self_struct in structs:
+                p = "self: &" + self_struct
             n, t = [x.strip() for x in p.split(":", 1)]
             if t in WIDTH:
                 self.env[n] = ("int", WIDTH[t])
-                self.params.append(n)
+                self.params.append((n, "Nat")); self.rust_params.append(None)
+            elif re.fullmatch(r"&\[(u8|u16|u32|u64)\]", t):
+                self.env[n] = ("array", WIDTH[t[2:-1]])
+                self.params.append((n, "List Nat")); self.rust_params.append(None)
+            elif t == "&[i32]":
+                self.env[n] = ("iarray", 32)
+                self.params.append((n, "List Int")); self.rust_params.append(None)
             elif t.lstrip("&") in structs:
-                # a struct passed by reference: one Lean parameter per integer field
+                # a struct passed by reference: one Lean parameter per integer, bool or Vec<u8> field
                 for fname, ftype in structs[t.lstrip("&")]:
-                    self.env["%s.%s" % (n, fname)] = ("int", WIDTH[ftype])
-                    self.params.append("%s_%s" % (n, fname))
-                self.structs_of[n] = t.lstrip("&")
+                    key = "%s.%s" % (n, fname)
+                    if ftype in WIDTH:
+                        self.env[key] = ("int", WIDTH[ftype]); lt = "Nat"
+                    elif ftype == "bool":
+                        self.env[key] = ("bool",); lt = "Bool"
+                    elif ftype == "Option<Vec<u8>>":
+                        self.env[key] = ("optbytes",); lt = "Option Bytes"
+                    else:
+                        self.env[key] = ("bytes",); lt = "Bytes"
+                    self.params.append(("%s_%s" % (n, fname), lt, n, fname))
+                self.structs_of[n] = t.lstrip("&"); self.used[n] = set(); self.rust_params.append(n)
             else:
                 raise Untranslatable("parameter type " + t)
         self.lines = []
@@ -148,12 +185,17 @@ class Fn:
     # ---- expressions -------------------------------------------------------------------------
     def expr(self, e):
         """returns (lean term, width or None)"""
-        e = e.strip()
+        e = re.sub(r"\s+\.", ".", e.strip())
         while e.startswith("(") and e.endswith(")") and self.balanced(e[1:-1]):
             e = e[1:-1].strip()
-        m = re.fullmatch(r"(0x[0-9a-fA-F_]+|[0-9][0-9_]*?)_?(u8|u16|u32|u64)?", e)
+        m = re.fullmatch(r"(0x[0-9a-fA-F_]+|0b[01_]+|[0-9][0-9_]*?)_?(u8|u16|u32|u64)?", e)
         if m:
             return str(int(m.group(1).replace("_", ""), 0)), (WIDTH[m.group(2)] if m.group(2) else None)
+        # if C { A } else { B } as an expression (C: a bool field or a comparison)
+        m = re.fullmatch(r"if\s+(.+?)\s*\{\s*([^{}]+?)\s*\}\s*else\s*\{\s*([^{}]+?)\s*\}", e, re.S)
+        if m:
+            a, wa = self.expr(m.group(2)); b, wb = self.expr(m.group(3))
+            return "(if %s then %s else %s)" % (self.cond(m.group(1)), a, b), (wa or wb)
         # lowest-precedence binary operators first: | then & (split at top level, right to left)
         for op, lean in (("|", "|||"), ("&", "&&&")):
             k = self.top_level(e, op)
@@ -173,15 +215,46 @@ class Fn:
         if m and self.balanced(m.group(1)):
             t, w = self.expr(m.group(1))
             return "(min %s %s)" % (t, m.group(2)), w
-        m = re.fullmatch(r"(\w+)\.len\(\)", e)
+        m = re.fullmatch(r"(\w+(?:\.\w+)?)\.len\(\)", e)
+        if m and m.group(1) in self.env and self.env[m.group(1)][0] in ("bytes", "array", "iarray", "pairs"):
+            return "%s.length" % self.fld(m.group(1)), 64
+        m = re.fullmatch(r"(\w+(?:\.\w+)?)\[(\d+)\]", e)
         if m and m.group(1) in self.env and self.env[m.group(1)][0] == "bytes":
-            return "%s.length" % m.group(1), 64
+            # an index the Rust code guards itself (out of range is a panic there: C12's subject, not this translation's)
+            return "(%s.getD %s 0).toNat" % (self.fld(m.group(1)), m.group(2)), 8
+        m = re.fullmatch(r"(\w+(?:\.\w+)?)\.get\((\d+)\)\s*\.map\(\|(\w+)\|\s*(.+)\)\s*\.unwrap_or\((\w+)\)", e, re.S)
+        if m and m.group(1) in self.env and self.env[m.group(1)][0] == "bytes" and self.balanced(m.group(4)):
+            saved = self.env.get(m.group(3))
+            self.env[m.group(3)] = ("int", 8)
+            try:
+                if self.result == ("bool",):
+                    body, w = "decide (%s)" % self.cond(m.group(4)), None
+                    dflt = m.group(5)
+                else:
+                    body, w = self.expr(m.group(4))
+                    dflt = self.expr(m.group(5))[0]
+            finally:
+                if saved is None:
+                    del self.env[m.group(3)]
+                else:
+                    self.env[m.group(3)] = saved
+            return "(match (%s[%s]?).map (·.toNat) with | some %s => %s | none => %s)" % (self.fld(m.group(1)), m.group(2), m.group(3), body, dflt), (w or 8)
+        m = re.fullmatch(r"(\w+)\.(\w+)\(\)", e)
+        if m and m.group(1) in self.structs_of and m.group(2) in self.known and self.known[m.group(2)].get("self") == self.structs_of[m.group(1)]:
+            spec = self.known[m.group(2)]
+            args = [self.fld("%s.%s" % (m.group(1), f)) for f, _ in self.all_structs[self.structs_of[m.group(1)]] if f in spec["params"][0]]
+            return "(%s.%s %s)" % (spec["ns"], m.group(2), " ".join(args)), spec["result"]
+        m = re.fullmatch(r"(\w+(?:\.\w+)?)\.get\((\d+)\)\.copied\(\)\.unwrap_or\((\w+)\)", e)
+        if m and m.group(1) in self.env and self.env[m.group(1)][0] == "bytes":
+            return "(match %s[%s]? with | some b => b.toNat | none => %s)" % (self.fld(m.group(1)), m.group(2), self.expr(m.group(3))[0]), 8
         m = re.fullmatch(r"(\w+)\.(\w+)", e)
-        if m and "%s.%s" % (m.group(1), m.group(2)) in self.env:
-            return "%s_%s" % (m.group(1), m.group(2)), self.env[e][1]
+        if m and "%s.%s" % (m.group(1), m.group(2)) in self.env and self.env[e][0] == "int":
+            return self.fld(e), self.env[e][1]
         m = re.fullmatch(r"(.+?)\s*<<\s*(\d+)", e)
         if m and self.balanced(m.group(1)):
             t, w = self.expr(m.group(1))
+            if w is None and re.fullmatch(r"\d+", t):
+                return str(int(t) << int(m.group(2))), None
             if w is None:
                 raise Untranslatable("shift of an untyped value: " + e)
             return "(%s * 2 ^ %s %% 2 ^ %d)" % (t, m.group(2), w), w
@@ -191,6 +264,36 @@ class Fn:
             if e in self.consts:
                 return str(self.consts[e][0]), WIDTH[self.consts[e][1]]
         raise Untranslatable("expression: " + e)
+
+    def fld(self, key):
+        """Lean name of an environment entry; a struct field is recorded as read"""
+        if "." in key:
+            a, f = key.split(".", 1)
+            if a in self.used:
+                self.used[a].add(f)
+        return key.replace(".", "_")
+
+    def cond(self, c):
+        c = c.strip()
+        if c in self.env and self.env[c] == ("bool",):
+            return self.fld(c)
+        m = re.fullmatch(r"(\w+(?:\.\w+)?)\.is_some\(\)", c)
+        if m and self.env.get(m.group(1)) == ("optbytes",):
+            return "%s.isSome" % self.fld(m.group(1))
+        for op, lean in ((">=", "≥"), ("<=", "≤"), ("==", "="), ("!=", "≠"), (">", ">"), ("<", "<")):
+            d = 0
+            for i, ch in enumerate(c):
+                if ch in "([":
+                    d += 1
+                elif ch in ")]":
+                    d -= 1
+                elif d == 0 and c.startswith(op, i):
+                    if len(op) == 1 and (c[i - 1:i] in ("<", ">") or c[i + 1:i + 2] in ("<", ">", "=")):
+                        continue
+                    if len(op) == 2 and op in (">=", "<=") and c[i - 1:i] in ("<", ">"):
+                        continue
+                    return "%s %s %s" % (self.expr(c[:i])[0], lean, self.expr(c[i + len(op):])[0])
+        raise Untranslatable("condition: " + c)
 
     @staticmethod
     def top_level(e, op):
@@ -206,6 +309,21 @@ class Fn:
         return idx
 
     @staticmethod
+    def split_args(s):
+        out, cur, d = [], "", 0
+        for ch in s:
+            if ch in "([{":
+                d += 1
+            elif ch in ")]}":
+                d -= 1
+            if ch == "," and d == 0:
+                out.append(cur); cur = ""
+            else:
+                cur += ch
+        out.append(cur)
+        return [x.strip() for x in out if x.strip()]
+
+    @staticmethod
     def balanced(s):
         d = 0
         for ch in s:
@@ -216,6 +334,8 @@ class Fn:
         return d == 0
 
     def be(self, e, elem_width=None):
+        if e.strip() in self.env and self.env[e.strip()] == ("sint", 32):
+            return "i32be %s" % e.strip()
         t, w = self.expr(e)
         w = w or elem_width
         if w is None:
@@ -238,9 +358,9 @@ class Fn:
         m = re.fullmatch(r"&(.+)\.to_be_bytes\(\)", a, re.S)
         if m:
             return self.be(m.group(1))
-        m = re.fullmatch(r"&?(\w+)", a)
+        m = re.fullmatch(r"&?(\w+(?:\.\w+)?)", a)
         if m and m.group(1) in self.env and self.env[m.group(1)][0] == "bytes":
-            return m.group(1)
+            return self.fld(m.group(1))
         if m and m.group(1) in self.env and self.env[m.group(1)] == ("array", 8):
             return "%s.map u8'" % m.group(1)
         raise Untranslatable("byte-string argument: " + a)
@@ -264,6 +384,8 @@ class Fn:
         raise Untranslatable("build_box argument: " + arg)
 
     def ret(self, s):
+        if self.result[0] != "bytes":
+            return self.expr(re.sub(r"^return\s+", "", s))[0]
         b = self.box_expr(s)
         if b:
             return b
@@ -279,6 +401,49 @@ class Fn:
         for k, s in enumerate(stmts):
             s = s.rstrip(";").strip()
             last = k == len(stmts) - 1
+            if re.fullmatch(r"assert_invariant!\(.*\)", s, re.S):
+                continue            # panics or returns unit: the translation describes the value returned
+            if re.fullmatch(r"for\s+\(\w+,\s*&?\w+\)\s+in\s+\w+\.iter\(\)\.enumerate\(\)\s*\{\s*assert_invariant!\([^;]*\);?\s*\}", s, re.S):
+                continue
+            m = re.fullmatch(r"let\s+mut\s+(\w+)\s*=\s*vec!\[(.*)\]", s, re.S)
+            if m and ";" not in m.group(2):
+                self.env[m.group(1)] = ("bytes", "mut")
+                self.lines.append("  let %s : Bytes := [%s]" % (m.group(1), ", ".join("u8' " + self.expr(x)[0] for x in self.split_args(m.group(2)))))
+                continue
+            m = re.fullmatch(r"let\s+\(([\w\s,]+)\)\s*=\s*if\s+(.+?)\s*\{\s*\((.*?)\)\s*\}\s*else\s*\{\s*\((.*?)\)\s*\}", s, re.S)
+            if m:
+                names = [x.strip() for x in m.group(1).split(",") if x.strip()]
+                c = self.cond(m.group(2))
+                ea = self.split_args(m.group(3)); eb = self.split_args(m.group(4))
+                if not (len(names) == len(ea) == len(eb)):
+                    raise Untranslatable("tuple arity")
+                for n_, a_, b_ in zip(names, ea, eb):
+                    (ta, wa), (tb, wb) = self.expr(a_), self.expr(b_)
+                    self.env[n_] = ("int", wa or wb or 8)
+                    self.lines.append("  let %s : Nat := if %s then %s else %s" % (n_, c, ta, tb))
+                continue
+            # the run-length idiom of stts / ctts: (count, value) entries, the last one extended while the value repeats
+            m = re.fullmatch(r"let\s+mut\s+(\w+)\s*:\s*Vec<\(u32,\s*(u32|i32)\)>\s*=\s*Vec::new\(\)", s)
+            if m and k + 1 < len(stmts):
+                ent, ty = m.group(1), m.group(2)
+                nxt = re.sub(r"\s+", " ", stmts[k + 1].rstrip(";").strip())
+                mm = re.fullmatch(r"for &(\w+) in (\w+) \{ if let Some\(last\) = %s\.last_mut\(\) \{ if last\.1 == \1 \{ last\.0 \+= 1; continue; \} \} %s\.push\(\(1(?:u32)?, \1\)\); \}" % (ent, ent), nxt)
+                want = ("array", 32) if ty == "u32" else ("iarray", 32)
+                if mm and self.env.get(mm.group(2)) == want:
+                    self.env[ent] = ("pairs", ty)
+                    self.lines.append("  let %s := rleSnoc %s" % (ent, mm.group(2)))
+                    self.skip_next = True
+                    continue
+                raise Untranslatable("run-length loop over " + ent)
+            if getattr(self, "skip_next", False):
+                self.skip_next = False
+                continue
+            m = re.fullmatch(r"for\s+\((\w+),\s*(\w+)\)\s+in\s+(\w+)\s*\{\s*(\w+)\.extend_from_slice\(&(\w+)\.to_be_bytes\(\)\);\s*(\w+)\.extend_from_slice\(&(\w+)\.to_be_bytes\(\)\);?\s*\}", s, re.S)
+            if m and self.env.get(m.group(3), ("",))[0] == "pairs" and self.is_buf(m.group(4)) and m.group(4) == m.group(6) \
+                    and m.group(1) == m.group(5) and m.group(2) == m.group(7):
+                second = "u32be" if self.env[m.group(3)][1] == "u32" else "i32be"
+                self.emit(m.group(4), "%s.flatMap (fun (%s, %s) => u32be %s ++ %s %s)" % (m.group(3), m.group(1), m.group(2), m.group(1), second, m.group(2)))
+                continue
             m = re.fullmatch(r"let\s+mut\s+(\w+)\s*=\s*Vec::new\(\)", s)
             if m:
                 self.env[m.group(1)] = ("bytes", "mut")
@@ -332,22 +497,54 @@ class Fn:
                 self.lines.append("  let %s : Nat := %s" % (m.group(1), term)); continue
             m = re.fullmatch(r"let\s+(\w+)\s*=\s*(\w+)\((.*)\)", s, re.S)
             if m and m.group(2) in self.known:
-                args = []
+                args = []; argkinds = []
                 for a in [x.strip() for x in m.group(3).split(",") if x.strip()]:
                     if a in self.structs_of:
-                        args += ["%s_%s" % (a, f) for f, _ in self.all_structs[self.structs_of[a]]]
+                        want = self.known[m.group(2)]["params"][len(argkinds)]
+                        argkinds.append(a)
+                        args += [self.fld("%s.%s" % (a, f)) for f, _ in self.all_structs[self.structs_of[a]] if f in (want or ())]
+                        continue
+                    argkinds.append(None)
+                    if False:
+                        pass
+                    elif a in self.env and self.env[a][0] in ("bytes", "array", "iarray"):
+                        args.append(a)
                     else:
                         args.append("(%s)" % self.expr(a)[0])
                 args = " ".join(args)
                 self.env[m.group(1)] = ("bytes",)
                 self.lines.append("  let %s : Bytes := %s %s" % (m.group(1), m.group(2), args)); continue
-            m = re.fullmatch(r"let\s+(\w+)\s*=\s*(.+)", s, re.S)
+            m = re.fullmatch(r"let\s+(\w+)\s*(?::\s*(u8|u16|u32|u64))?\s*=\s*(.+)", s, re.S)
             if m:
-                t, w = self.expr(m.group(2))
+                t, w = self.expr(m.group(3))
+                if m.group(2):
+                    w = WIDTH[m.group(2)]
+                if w == "bool":
+                    self.env[m.group(1)] = ("bool",)
+                    self.lines.append("  let %s : Bool := %s" % (m.group(1), t)); continue
                 if w is None:
                     raise Untranslatable("type of local " + m.group(1))
                 self.env[m.group(1)] = ("int", w)
                 self.lines.append("  let %s : Nat := %s" % (m.group(1), t)); continue
+            m = re.fullmatch(r"if\s+let\s+Some\((\w+)\)\s*=\s*&(\w+\.\w+)\s*\{(.*)\}", s, re.S)
+            if m and self.env.get(m.group(2)) == ("optbytes",):
+                v = m.group(1)
+                bufs = [n_ for n_ in self.env if self.is_buf(n_)]
+                if len(bufs) != 1 or v in self.env:
+                    raise Untranslatable("if-let block")
+                self.env[v] = ("bytes",)
+                saved = self.lines
+                self.lines = []
+                inner = split_statements(m.group(3))
+                for st in inner:
+                    if re.match(r"\s*(return|let)\b", st):
+                        raise Untranslatable("if-let block with let/return")
+                self.translate_block(inner + [bufs[0]], top=False)
+                block = self.lines
+                self.lines = saved
+                del self.env[v]
+                self.lines.append("  let %s := match %s with\n    | none => %s\n    | some %s => (\n%s)" % (bufs[0], self.fld(m.group(2)), bufs[0], v, "\n".join("    " + l for l in block)))
+                continue
             m = re.fullmatch(r"if\s+(.+?)\s*\{(.*)\}", s, re.S)
             if m and top:
                 conds = []
@@ -371,34 +568,48 @@ class Fn:
             raise Untranslatable("statement: " + s[:80])
         raise Untranslatable("no result expression")
 
+    def callee_spec(self):
+        """per Rust parameter: None, or the struct fields this function (and its callees) read"""
+        return [None if n is None else set(self.used[n]) for n in self.rust_params]
+
     def lean(self):
-        params = "".join(" (%s : Nat)" % p for p in self.params)
-        return "def %s%s : Bytes :=\n%s\n" % (self.name, params, "\n".join(self.lines))
+        params = "".join(" (%s : %s)" % p[:2] for p in self.params if len(p) == 2 or p[3] in self.used[p[2]])
+        rt = {"bytes": "Bytes", "int": "Nat", "bool": "Bool"}[self.result[0]]
+        return "def %s%s : %s :=\n%s\n" % (self.name, params, rt, "\n".join(self.lines))
 
 
 def generate():
     srcs = {}
     out = []
     failed = []
-    NS = {"src/muxer/mp4.rs": "Mp4", "src/fragmented.rs": "Frag"}
+    NS = {"src/muxer/mp4.rs": "Mp4", "src/fragmented.rs": "Frag", "src/codec/h265.rs": "Hevc"}
     cur = None
-    known = set()
-    for f, name in TARGETS:
+    known = {}
+    all_structs = {}
+    for root, _, files in sorted(os.walk(os.path.join(REPO, "src"))):
+        for fn_ in sorted(files):
+            if fn_.endswith(".rs"):
+                all_structs.update(structs_of(strip_comments(open(os.path.join(root, fn_)).read())))
+    for tgt in TARGETS:
+        f, name = tgt[0], tgt[1]
+        self_struct = tgt[2] if len(tgt) > 2 else None
         if f not in srcs:
             srcs[f] = strip_comments(open(os.path.join(REPO, f)).read())
         if NS[f] != cur:
             if cur:
                 out.append("end %s\n" % cur)
             cur = NS[f]
-            known = set()
             out.append("namespace %s\n" % cur)
         try:
             sig, body = find_fn(srcs[f], name)
-            fn = Fn(name, sig, body, consts_of(srcs[f]), known, structs_of(srcs[f]))
+            structs = dict(all_structs); structs.update(structs_of(srcs[f]))
+            fn = Fn(name, sig, body, consts_of(srcs[f]), known, structs, self_struct)
             out.append("/-- `%s` of %s, translated statement by statement -/\n%s" % (name, f, fn.lean()))
-            known.add(name)
+            known[name] = {"params": fn.callee_spec(), "result": ("bool" if fn.result == ("bool",) else fn.result[1] if fn.result[0] == "int" else None),
+                           "self": self_struct, "ns": cur}
         except Untranslatable as e:
-            failed.append((name, str(e)))
+            e = re.sub(r"\s+", " ", str(e))
+            failed.append((name, e))
             out.append("-- UNTRANSLATABLE %s: %s\n" % (name, e))
     if cur:
         out.append("end %s\n" % cur)
@@ -409,6 +620,12 @@ def generate():
             "/-- a byte-sized value pushed or listed as a `u8` -/\nabbrev u8' (n : Nat) : UInt8 := UInt8.ofNat n\n\n"
             "/-- `build_box` (hand-written: length as `u32`, type, payload; its invariant INV-001 is a tautology) -/\n"
             "def buildBox (typ payload : Bytes) : Bytes := u32be (8 + payload.length) ++ typ ++ payload\n\n"
+            "/-- the loop `for &x in xs { if let Some(last) = entries.last_mut() { if last.1 == x { last.0 += 1; continue; } }\n"
+            "    entries.push((1, x)); }` (hand-written once; the translator only recognises the loop) -/\n"
+            "def rleSnoc {α} [DecidableEq α] (xs : List α) : List (Nat × α) :=\n"
+            "  xs.foldl (fun entries x => match entries.getLast? with\n"
+            "    | some last => if last.2 = x then entries.dropLast ++ [(last.1 + 1, last.2)] else entries ++ [(1, x)]\n"
+            "    | none => entries ++ [(1, x)]) []\n\n"
             + "\n".join(out) + "\nend Muxide.Generated\n")
     return text, failed
 
@@ -420,6 +637,7 @@ def main():
     if old != text:
         with open(OUT, "w") as f:
             f.write(text)
+    ntargets = len(TARGETS)
     for n, e in failed:
         print("untranslatable %s: %s" % (n, e))
     print("generated %d definitions (%d untranslatable)%s" % (len(TARGETS) - len(failed), len(failed), "" if old == text else " [file updated]"))
